@@ -3,7 +3,7 @@ import NeoFS.Model.Netmap
 /-! Line-protocol driver for the Netmap model (properties C06, C07).
 
 `case <id> <kind> n=<committee size> self=<netmap hash> has=<hashes with newEpoch/1> probes=<probe hashes>
-presub=<contracts subscribed by their own deployment>`
+presub=<contracts subscribed by their own deployment> [count=<k>: updateSnapshotCount(k) was the first invocation]`
 `op <g> h=<CurrentIndex> <sig> <method> <args…>` — see harness/netmap/run_test.go. -/
 open NeoFS NeoFS.Netmap
 
@@ -161,7 +161,11 @@ def branchOf (s : State) (env : Env) : Op → String
 
 def startCase (ws : List String) : World :=
   let n := (parseNat? (attr ws "n")).getD 1
-  let w0 : World := { st := NeoFS.Netmap.init, n := n, self := parseHex (attr ws "self"),
+  -- `count=<k>`: the deployment whose snapshot count was changed once before anything else (`initWith k`)
+  let root := match parseNat? (attr ws "count") with
+    | some k => NeoFS.Netmap.initWith k
+    | none => NeoFS.Netmap.init
+  let w0 : World := { st := root, n := n, self := parseHex (attr ws "self"),
                       has := parseHexList (attr ws "has"), probes := parseHexList (attr ws "probes"), rej := [] }
   -- contracts subscribed by their own deployment (the deployment carries the Alphabet witness)
   let st := (parseHexList (attr ws "presub")).foldl (fun s h =>
